@@ -31,7 +31,13 @@ def digit_blocks():
 def ws_variants(s):
     return [("pad", "  " + s + " "), ("pad-left", " " + s), ("pad-right", s + "  "), ("double", s.replace(" ", "  ")),
             ("tab", s.replace(" ", "\t")), ("newline", s.replace(" ", "\n")), ("nbsp", s.replace(" ", "\xa0")),
-            ("mixed", s.replace(" ", " \t\xa0 ")), ("colon", s + ":"), ("pad-tabs", "\t" + s + "\n")]
+            ("mixed", s.replace(" ", " \t\xa0 ")), ("colon", s + ":"), ("pad-tabs", "\t" + s + "\n"),
+            # however much of it there is (the text node of an indented template, fixed-width columns)
+            ("pad-indented", INDENT + s + INDENT), ("pad-600", " " * 600 + s), ("pad-nbsp-600", s + "\xa0" * 600),
+            ("run-100", s.replace(" ", " " * 100) if " " in s else "\n\t\t\t\t" * 110 + s + "\n")]
+
+
+INDENT = "\n" + ("\n" + " " * 24) * 12
 
 
 def run(ctx):
